@@ -1358,8 +1358,17 @@ asn1c_lang_C_type_SIMPLE_TYPE(arg_t *arg) {
 		OUT("\n");
 		DEBUG("expr constraint checking code for %s", p);
 		if(asn1c_emit_constraint_checking_code(arg) == 1) {
-			OUT("return td->encoding_constraints.general_constraints"
-				"(td, sptr, ctfailcb, app_key);\n");
+			/*
+			 * No applicable constraints: defer to the checker of the
+			 * underlying type.  (td->...general_constraints is this very
+			 * function: calling it would recurse until the stack is gone.)
+			 */
+			asn1p_expr_t *terminal = asn1f_find_terminal_type_ex(
+				arg->asn, arg->ns, expr);
+			OUT("return %s_constraint(td, sptr, ctfailcb, app_key);\n",
+				asn1c_type_name(arg,
+					(expr->expr_type == A1TC_REFERENCE && terminal)
+						? terminal : expr, TNF_SAFE));
 		}
 		INDENT(-1);
 		OUT("}\n");
